@@ -13,6 +13,7 @@ let run (path : string) =
   let lines = read_lines path in
   let cases = ref 0 and steps = ref 0 and nontrivial = ref 0 in
   let z = z_of_int in
+  let kf_seen = ref 0 in
   L.iter (fun line ->
       match tokens line with
       | "case" :: id :: "c14" :: handler :: app :: breaker :: esm :: mask :: np :: cls :: kind :: changed :: base_cls :: same :: reads :: needed :: tag :: [] ->
@@ -58,8 +59,11 @@ let run (path : string) =
             ~detail:(Printf.sprintf "%s_%s_breaker=%b_esm=%d_mask=%d_cls=%s_changed=%b" handler tag breaker esm mask cls changed);
         if (not breaker) && esm = 0 then
           if not (holds_C14_price (mask <> 0) (needed <> 0) ok base_ok same changed) then
-            predfail ~case:id ~step:1 ~pred:"holds_C14_price"
-              ~kf:(if kf_C14_bid_stale_debt_price h (needed <> 0) ok base_ok same then "kf_C14_bid_stale_debt_price" else "none")
+            let kf = if kf_C14_bid_stale_debt_price h (needed <> 0) ok base_ok same then "kf_C14_bid_stale_debt_price" else "none" in
+            (* Conv prints the first 200 failures only: a known class must not crowd out an unknown one *)
+            if kf <> "none" then incr kf_seen;
+            if kf <> "none" && !kf_seen > 20 then bump ("predfail-not-listed:holds_C14_price:" ^ kf) else
+            predfail ~case:id ~step:1 ~pred:"holds_C14_price" ~kf
               ~detail:(Printf.sprintf "%s_%s_inactive-mask=%d_prices-read-when-active=%d_inactive-and-needed=%d_cls=%s_all-active-cls=%s_same-outcome=%b" handler tag mask reads needed cls base_cls same)
       | "case" :: id :: "sweep" :: name :: breaker :: div :: cls :: started :: [] ->
         incr cases; incr steps;
@@ -79,4 +83,9 @@ let run (path : string) =
     ) lines;
   finish ~cases:!cases ~steps:!steps ~nontrivial:!nontrivial
 
+(* runner C14-focus <ignored>: the handlers whose regenerated row fails a C14 table check *)
+let focus (_ : string) =
+  L.iter (fun n -> print_endline ("FOCUS " ^ string_of_coq n)) c14_broken_rows
+
 let () = Conv.register "C14" run
+let () = Conv.register "C14-focus" focus
